@@ -335,6 +335,67 @@ def part_pycall(rng: Rng, model: Model, res: Result, n: int) -> None:
             res.bad("corr", "Conv.call (model of CPython call binding) vs CPython", case=case, observed=obs, expected=ans)
 
 
+async def no_args_jobs(kind: str) -> dict:
+    """a job enqueued without arguments (and one with `{}`) travels through the given broker to a real Worker whose actors have
+    defaults for all their parameters — under the Basic, the Pydantic and the default converter"""
+    import fake_amqp
+    import fake_redis
+    fake_redis.install()
+    fake_amqp.install()
+    fake_redis.reset_servers()
+    fake_amqp.reset_servers()
+    from repid import Job, RabbitMessageBroker, RedisMessageBroker, Worker
+    broker = {"mem": InMemoryMessageBroker, "redis": lambda: RedisMessageBroker("redis://c08"),
+              "rabbit": lambda: RabbitMessageBroker("amqp://c08")}[kind]()
+    conn = Connection(broker)
+    await conn.connect()
+    seen: list = []
+    router = Router()
+
+    def mk(tag):
+        async def f(a="dflt-a", *, b=("dflt", "b")):
+            seen.append((tag, a, b))
+        f.__name__ = "f_" + tag
+        return f
+    router.actor(mk("basic"), name="f_basic", converter=BasicConverter)
+    router.actor(mk("pydantic"), name="f_pydantic", converter=PydanticConverter)
+    saved = Config.CONVERTER
+    Config.CONVERTER = DefaultConverter
+    try:
+        from repid.router import RouterDefaults
+        r2 = Router(defaults=RouterDefaults())
+        r2.actor(mk("default"), name="f_default")
+    finally:
+        Config.CONVERTER = saved
+    await broker.queue_declare("default")
+    n = 0
+    for name in ("f_basic", "f_pydantic", "f_default"):
+        for args in (None, {}):
+            n += 1
+            await Job(name, args=args, id_=f"na{n}", _connection=conn).enqueue()
+    w = Worker(routers=[router, r2], handle_signals=[], messages_limit=n, _connection=conn)
+    try:
+        await asyncio.wait_for(w.run(), 30)
+        finished = True
+    except asyncio.TimeoutError:
+        finished = False
+    await conn.disconnect()
+    return {"broker": kind, "enqueued": n, "seen": sorted(seen), "finished": finished}
+
+
+def part_no_args(res: Result) -> None:
+    for kind in ("mem", "redis", "rabbit"):
+        o = vtime.run(lambda loop, k=kind: no_args_jobs(k), budget=20_000_000)
+        res.dist["no-args-jobs:" + kind] += o["enqueued"]
+        res.note(("no-args", kind))
+        want = sorted([(t, "dflt-a", ("dflt", "b")) for t in ("basic", "pydantic", "default")] * 2)
+        got = [(t, a, tuple(b) if isinstance(b, (list, tuple)) else b) for t, a, b in o["seen"]]
+        if got != want:
+            res.bad("impl", "a job enqueued without arguments did not run the actor whose parameters all have defaults, with those "
+                            "defaults (through the broker and a real Worker)", case={"label": "no-args-jobs", "broker": kind},
+                    observed={"executions": o["seen"], "worker_finished": o["finished"]}, expected=want)
+
+
 def part_outputs(rng: Rng, res: Result) -> None:
     """the encoded return value decodes to the value the actor returned"""
     async def f1():
@@ -378,6 +439,7 @@ def run(ctx) -> Result:
     check_programs(recs, model, res)
     part_pycall(rng, model, res, 6000 if deep else 1200)
     part_outputs(rng, res)
+    part_no_args(res)
     return res
 
 
